@@ -86,7 +86,7 @@ def meta(tier):
                             symbolic="labels of the two outermost labelled loops (2 digits each, any value) or the assigned name (2 characters)"),
                 assumptions=["growth in n is observed at the enumerated sizes only; the solver adds 'for every label/name assignment at those sizes'",
                              "counter = wrapper around fparser.two.utils.Base.__new__ installed by the harness"],
-                budget_s=400 if q else 2400, unit_budget_s=120 if q else 900, witness_every=5)
+                budget_s=400 if q else 1500, unit_budget_s=120 if q else 900, witness_every=5)
 
 
 def _attempts(src, std, cap):
